@@ -350,6 +350,17 @@ theorem templates_times_unchanged (render : Cell → String) (scale : α → α)
   have h := fixed_run render scale ops d
   exact ⟨by rw [h], by rw [h], h⟩
 
+theorem assign_stays_loadable_ok (render : Cell → String) (scale : α → α) (d : Disk α)
+    (hfile : (findAssign d.assign).isSome) (hnc : ¬ Conflict d.assign)
+    (hinit : AssignOK d.fixed.spikeSamples.length (shown d)) (ops : List Op)
+    (hsaves : SavesOK d.fixed.spikeSamples.length ops) :
+    (findAssign (run render scale d ops).assign).isSome ∧ ¬ Conflict (run render scale d ops).assign ∧
+    AssignOK (run render scale d ops).fixed.spikeSamples.length (shown (run render scale d ops)) := by
+  obtain ⟨h1, h2⟩ := assign_stays_loadable render scale d hfile hnc ops
+  refine ⟨h1, h2, ?_⟩
+  rw [(templates_times_unchanged render scale d ops).2.2]
+  exact (clusters_last_saved_ok render scale d hfile hinit ops hsaves).2
+
 /-! ### the subset store -/
 
 theorem subInv_step (render : Cell → String) (scale : α → α) (d : Disk α) (op : Op)
